@@ -45,17 +45,17 @@ theorem noAdjCharsNs_tail {k : NSNode} {ks : List NSNode} (h : noAdjCharsNs (k :
 /-- Start tag up to and including `>` / before `/>`: the state `open_element` is called in. -/
 theorem run_start_ns {b : Builder} {frames : List (List (Str × Str))} (pfx loc junk : StrSpan)
     (attrs : List NSAttr) (hw : attrsWellNs ((flatScope frames).push (declsOf attrs)) attrs)
-    (tail : List Token) (lexErr : Option Nat) :
+    (hbc : pfx.bareColon = false) (tail : List Token) (lexErr : Option Nat) :
     b.run (.elementStart pfx loc junk :: (attrs.map NSAttr.token ++ tail)) lexErr =
       Builder.run { b with
         env := (declIds b.env (declsOf attrs)).1,
         eb := some { (ElementBuilder.new pfx loc) with
           namespaces := (declIds b.env (declsOf attrs)).2,
           attributes := (ordinary attrs).map NSAttr.builder } } tail lexErr := by
-  simp only [Builder.run, Builder.step]
+  simp only [Builder.run, Builder.step, hbc, Bool.false_eq_true, if_false]
   rw [run_attrs_ns tail lexErr attrs (b.element pfx loc) (ElementBuilder.new pfx loc) rfl hw.1 hw.2.1
     (by intro d hd; simp [ElementBuilder.new] at hd) hw.2.2.1
-    (by simpa [ElementBuilder.new] using written_nodup hw.2.2.2.1)]
+    (by simpa [ElementBuilder.new] using written_nodup hw.2.2.2.1) hw.2.2.2.2.2]
   simp [Builder.element, ElementBuilder.new]
 
 mutual
@@ -69,13 +69,13 @@ theorem sim_node_ns : ∀ (sn : NSNode) (frames : List (List (Str × Str))), sn.
       HeadOk (b.emitNs (NPNode.encode.encodeList b.env (sn.denote (flatScope frames))).1
         (NPNode.encode.encodeList b.env (sn.denote (flatScope frames))).2 seen idn sp))
   | .elem pfx loc junk attrs openSp kids cpfx cloc closeSp, frames, hw, b, hr, _, hids => by
-    obtain ⟨hwa, hp, hcp, hcn, hadj, hwk⟩ := hw
+    obtain ⟨hwa, hp, hcp, hcn, hadj, hwk, hbp, hbcp⟩ := hw
     simp only [NSNode.denote, encodeNsList_single, NPNode.encode, NPNode.ids.idsList, NPNode.ids, List.append_nil]
       at hids ⊢
     refine ⟨?_, fun _ _ _ _ => headOk_emitNs_single rfl⟩
     intro rest lexErr
     simp only [NSNode.tokens, List.cons_append, List.append_assoc, List.nil_append]
-    rw [run_start_ns pfx loc junk attrs hwa]
+    rw [run_start_ns pfx loc junk attrs hwa hbp]
     obtain ⟨hidA, hidK⟩ := hids.split
     obtain ⟨idn0, sp0, hopen⟩ := openElement_ns hr pfx loc attrs hwa hp hidA.1 hidA.2
     simp only [Builder.run, Builder.step, hopen]
@@ -91,17 +91,17 @@ theorem sim_node_ns : ∀ (sn : NSNode) (frames : List (List (Str × Str))), sn.
     obtain ⟨sp, hc⟩ := run_close_ns hr pfx.text (((flatScope frames).push (declsOf attrs)).resolve pfx.text) loc.text
       (declsOf attrs) (attrsOf ((flatScope frames).push (declsOf attrs)) attrs) idn0 sp0 _ _ _ idnk spk
       (encodeNsList_app (NSNode.denote.denoteList ((flatScope frames).push (declsOf attrs)) kids) _)
-      cpfx cloc closeSp hcp hcn (by rw [hres, hcp]; exact hu) rest lexErr
+      cpfx cloc closeSp hcp hcn (by rw [hres, hcp]; exact hu) hbcp rest lexErr
     refine ⟨idnk, sp, ?_⟩
     rw [hc]
     simp only [Builder.openedNs, List.reverse_append, List.append_assoc]
   | .empty pfx loc junk attrs endSp, frames, hw, b, hr, _, hids => by
-    obtain ⟨hwa, hp⟩ := hw
+    obtain ⟨hwa, hp, hbp⟩ := hw
     simp only [NSNode.denote, encodeNsList_single, NPNode.ids.idsList, NPNode.ids, List.append_nil] at hids ⊢
     refine ⟨?_, fun _ _ _ _ => headOk_emitNs_single (by simp [NPNode.encode, Tree.value, Value.isText])⟩
     intro rest lexErr
     simp only [NSNode.tokens, List.cons_append, List.append_assoc, List.nil_append]
-    rw [run_start_ns pfx loc junk attrs hwa]
+    rw [run_start_ns pfx loc junk attrs hwa hbp]
     obtain ⟨idn0, sp0, hopen⟩ := openElement_ns hr pfx loc attrs hwa hp hids.1 hids.2
     simp only [Builder.run, Builder.step, hopen, closeImmediate_openedNs b hr.eb]
     exact ⟨_, _, rfl⟩
